@@ -506,9 +506,21 @@ def gen_value(rng, opts, depth, budget):
                                        {"k": "bool", "v": True}]))
         return {"k": rng.pick(["list", "tuple"]), "items": items}
     if k in ("list", "tuple"):
+        if rng.chance(0.06):
+            # long item-wise sequences: index keys with 2-3 digits ('10' < '9' lexicographically)
+            n = rng.pick([10, 11, 12, 21, 100, 101])
+            pool = [{"k": "str", "v": "s"}, {"k": "int", "v": 3}, {"k": "none"}, {"k": "bool", "v": True}]
+            items = [dict(pool[(q * 7 + n) % 4], **({"v": f"s{q}"} if (q * 7 + n) % 4 == 0 else {}))
+                     for q in range(n)]
+            items[0] = {"k": "str", "v": "first"}
+            return {"k": k, "items": items}
         n = rng.pick([0, 1, 2, 3, 4]) if opts["regime"] != "wide" else rng.pick([3, 6, 9])
         return {"k": k, "items": [gen_value(rng, opts, depth + 1, budget) for _ in range(n)]}
     if k == "set":
+        if rng.chance(0.06):
+            n = rng.pick([10, 11, 13, 101])
+            return {"k": "set", "items": [{"k": "str", "v": f"m{q}"} for q in range(n - 1)] + [
+                {"k": "none"}]}
         n = rng.pick([0, 1, 2, 4])
         items, seen = [], set()
         for _ in range(n):
@@ -521,6 +533,11 @@ def gen_value(rng, opts, depth, budget):
             items.append(it)
         return {"k": "set", "items": items}
     if k == "dict":
+        if rng.chance(0.05):
+            # many keys, incl. digit-only ones that look like sequence indices
+            n = rng.pick([11, 12, 25])
+            return {"k": "dict", "items": [[str(q) if q % 2 else f"k{q}", {"k": "int", "v": q}]
+                                           for q in range(n)]}
         n = rng.pick([0, 1, 2, 3]) if opts["regime"] != "wide" else rng.pick([3, 6])
         used = set()
         items = []
